@@ -156,19 +156,20 @@ func runC08(c *sim.Ctx) *sim.Violation {
 		if mega {
 			kind, withData = ki%2, (ki/2)%2 == 0
 		}
-		var E error = io.EOF
+		var E, wireE error = io.EOF, io.EOF
 		kindName := "EOF"
 		if kind == 1 {
 			// a fresh error value per injection; one time in three it is an error
 			// that itself wraps io.EOF or io.ErrUnexpectedEOF (as net.OpError or a TLS
 			// layer does): it is still the transport's failure, and errors.Is(err, E)
 			// must hold for THAT value
-			E, _ = link.NewFaultErr(c, fmt.Sprintf("link failure #%d", c.Seq()))
+			fe, _ := link.NewFaultErr(c, fmt.Sprintf("link failure #%d", c.Seq()))
+			E, wireE = fe, fe.Wire()
 			kindName = "E"
 		}
 		stream := append(append([]byte{}, prefixFrame...), frame...)
 		m := link.Mode{Chunk: t.Bool(1, 2), Stutter: t.Bool(1, 4), DataEOF: withData}
-		r := link.NewReader(c, stream, m).CutAt(len(prefixFrame)+k, E)
+		r := link.NewReader(c, stream, m).CutAt(len(prefixFrame)+k, wireE)
 		rd, rtype := link.WrapReader(c, r)
 		if rtype != "link.Reader" {
 			c.Count("probe.reader-seen-as-" + rtype)
